@@ -144,3 +144,59 @@ Proof.
   - rewrite <- Ht. exact HS.
   - rewrite <- Hl. exact HT.
 Qed.
+
+(* ---------- broadcast_prefix: the replicated leaves themselves ---------- *)
+Lemma mapM_trace_all_ok {A B} (f : nat -> A -> res B) : forall l i,
+  Forall (fun x => forall j, exists y, f j x = Ok y) l ->
+  snd (mapM_trace f i l) = l /\ exists ys, fst (mapM_trace f i l) = Ok ys.
+Proof.
+  induction l as [|x l IH]; intros i H; [split; [reflexivity | exists []; reflexivity]|].
+  inversion H as [|? ? Hx Hl]; subst. simpl. destruct (Hx i) as (y & Hy). rewrite Hy.
+  destruct (IH (S i) Hl) as (Htr & ys & Hys). destruct (mapM_trace f (S i) l) as [r tr]. simpl in *. subst tr r.
+  split; [reflexivity | eexists; reflexivity].
+Qed.
+
+Lemma Forall2_in_l {A B} (R : A -> B -> Prop) l l' x : Forall2 R l l' -> In x l -> exists y, In y l' /\ R x y.
+Proof. induction 1 as [|a b l l' Hab _ IH]; intros Hin; [destruct Hin|]. destruct Hin as [<-|Hin]; [exists b; split; [left; reflexivity | exact Hab]|]. destruct (IH Hin) as (y & Hy & Hr). exists y. split; [right; exact Hy | exact Hr]. Qed.
+
+Theorem broadcast_prefix_spec c p full lsp spp s subs rs :
+  wf_obj p = true -> wf_obj full = true ->
+  flatten c p = Ok (lsp, spp) -> sspec_of spp = Some s ->
+  ss_flatten_up_to (c_reg c) s full = Ok subs ->
+  Forall2 (fun sub r => flatten c sub = Ok r) subs rs ->
+  broadcast_prefix c p full =
+    Ok (concat (map (fun xq => repeat (fst xq) (length (fst (snd xq)))) (combine lsp rs))).
+Proof.
+  intros Wp Wf Fp Hs Hu HF.
+  destruct (flatten_facts c p lsp spp Wp Fp) as (s' & E & Hsp & Wt & G & _). rewrite Hs in E. injection E as <-.
+  assert (Hlen : length subs = length lsp).
+  { unfold ss_flatten_up_to in Hu. rewrite (up_to_count _ _ full subs Wt G Hu).
+    destruct (flatten_decodes c p lsp _ Fp) as (s2 & Hs2 & _ & Hl2 & _). rewrite Hs in Hs2. injection Hs2 as <-. exact Hl2. }
+  unfold broadcast_prefix, tree_map_trace, sspec_res. rewrite Fp, Hs. cbn [mapM]. rewrite Hu. cbn [bind].
+  unfold zip_cols. rewrite (zip_cols_go_two lsp subs (length lsp)) by (congruence || apply le_n).
+  set (f := fun (_ : nat) (row : list obj) => match row with [x; sub] => do r <- flatten c sub ;; Ok x | _ => Err InternalError end).
+  assert (Hrow : forall x sub, In (x, sub) (combine lsp subs) -> exists q, flatten c sub = Ok q).
+  { intros x sub Hin. apply in_combine_r in Hin. destruct (Forall2_in_l _ _ _ _ HF Hin) as (q & _ & Hq). eauto. }
+  assert (Hall : Forall (fun row => forall j, exists y, f j row = Ok y) (rows2 lsp subs)).
+  { unfold rows2. apply Forall_forall. intros row Hr. apply in_map_iff in Hr as ([x sub] & <- & Hin).
+    intros j. cbn [fst snd f]. destruct (Hrow x sub Hin) as (q & ->). eexists; reflexivity. }
+  assert (Hys : Forall2 (fun pr y => forall j, f j [fst pr; snd pr] = Ok y) (combine lsp subs) lsp).
+  { clear - Hrow Hlen. revert subs Hlen Hrow. induction lsp as [|x l IH]; intros [|sub subs] Hlen Hrow; try discriminate Hlen; [constructor|].
+    cbn [combine]. constructor.
+    - intros j. cbn [fst snd f]. destruct (Hrow x sub (or_introl eq_refl)) as (q & ->). reflexivity.
+    - apply IH; [simpl in Hlen; congruence | intros y sb Hin; apply (Hrow y sb); right; exact Hin]. }
+  pose proof (mapM_trace_rows2 f lsp subs lsp 0 Hys) as H1.
+  destruct (mapM_trace_all_ok f (rows2 lsp subs) 0 Hall) as (Htr & _).
+  destruct (mapM_trace f 0 (rows2 lsp subs)) as [res tr]. cbn [fst snd] in *. subst res tr.
+  rewrite (unflatten_flatten c p lsp spp Wp Fp).
+  (* the second pass over the recorded rows *)
+  assert (Hparts : mapM (fun row => match row with
+                                   | [x; sub] => do r <- flatten c sub ;; Ok (repeat x (length (fst r)))
+                                   | _ => Err InternalError end) (rows2 lsp subs)
+                   = Ok (map (fun xq => repeat (fst xq) (length (fst (snd xq)))) (combine lsp rs))).
+  { clear - HF Hlen. revert subs rs HF Hlen. induction lsp as [|x l IH]; intros [|sub subs] rs HF Hlen; try discriminate Hlen.
+    - inversion HF; subst. reflexivity.
+    - inversion HF as [|? q ? rs' Hq Hrest]; subst. unfold rows2 in *. cbn [combine map mapM fst snd].
+      rewrite Hq. cbn [bind]. rewrite (IH subs rs' Hrest) by (simpl in Hlen; congruence). reflexivity. }
+  rewrite Hparts. reflexivity.
+Qed.
